@@ -76,6 +76,17 @@ check('C18', 'exploration',
       TB, 'exhaustive enumeration of single corruptions over every reachable shape (BFS state space)',
       'E1', 'DESIGN.md §4 C18')
 
+check('C04', 'model_checking',
+      'BFS whose transitions are transactions (1..L alphabet operations, then commit or abort) on one '
+      'long-lived writer connection of an in-memory database that writes exactly the registered objects and '
+      'what is newly reachable from them, in ZODB order; state = canonical committed tree + record layout. '
+      'After every commit a fresh reader built from the stored records only is compared with the model and '
+      'the writer (contents, shape, _check, check, independent walk); after every abort the writer must show '
+      'the last committed contents, and the same transaction must then commit correctly.',
+      TB + ' MiniDB (vt/minidb.py) stands in for ZODB: commit order, conflict detection and MVCC are '
+      'reproduced from its documented behaviour.',
+      'explicit-state BFS over transactions on the real persistence hooks', 'E1+E4', 'DESIGN.md §4 C04')
+
 PENDING = ['C%02d' % i for i in range(1, 20)]
 
 
